@@ -16,7 +16,7 @@ macro "mod_bridge" : tactic => `(tactic| (
   first
   | done
   | (simp [rs_modifiers, RInto.into, ActionValue.toModel, ActionValue.ofModel, boolToRat, Tick.delta_secs, Vec3.xy, Vec2.Y, Vec3.Z,
-      Vec2.yx, Vec3.yxz, Vec3.zyx, Vec3.xzy, Vec3.yzx, Vec3.zxy, Rat.fabs, Rat.fmax, Rat.fmin, Rat.fsignum] <;>
+      Vec2.yx, Vec3.yxz, Vec2.new, Vec3.new, Vec2.length_squared, Vec3.zyx, Vec3.xzy, Vec3.yzx, Vec3.zxy, Rat.fabs, Rat.fmax, Rat.fmin, Rat.fsignum] <;>
      (try (first | rfl | congr)))))
 
 theorem negate_apply (m : Negate) (v : ActionValue) (n : Nat) :
